@@ -26,12 +26,12 @@ def rule_mirror(ctx, cfg, r):
     for name in ("deflate::core::compress_normal", "deflate::stored::compress_stored"):
         f = c.fn(name)
         ctx.touched(f)
-        ev = paths.Evaluator(c, effects=E, max_paths=8000, max_blocks=60)
+        ev = paths.Evaluator(c, effects=E, max_paths=60000, max_blocks=60)
         rows = ev.run(f)
         heads = sorted({x.outcome[1] for x in rows if x.outcome[0] == "backedge"})
         seen = set()
         for h in heads:
-            ev2 = paths.Evaluator(c, effects=E, max_paths=8000, max_blocks=60, stop_blocks=[q for q in heads if q != h])
+            ev2 = paths.Evaluator(c, effects=E, max_paths=60000, max_blocks=60, stop_blocks=[q for q in heads if q != h])
             for x in ev2.run(f, start_bb=h):
                 if x.outcome[0] != "backedge":
                     continue
@@ -62,7 +62,7 @@ def rule_mirror(ctx, cfg, r):
     # compress_fast: bulk copy pair
     f = c.fn("deflate::core::compress_fast")
     ctx.touched(f)
-    ev = paths.Evaluator(c, effects=E, max_paths=8000, max_blocks=60)
+    ev = paths.Evaluator(c, effects=E, max_paths=60000, max_blocks=60)
     rows = ev.run(f)
     heads = sorted({x.outcome[1] for x in rows if x.outcome[0] == "backedge"})
     okbulk = 0
